@@ -906,8 +906,8 @@ def check_C18(tr):
 
 
 def check_hint(tr):
-    """the `size_hint` of a chunk's value iterator never contradicts its `len()` (lower bound <= len <= upper bound) at any point
-    the harness looks (the harness logs a `hint-mismatch` line otherwise)"""
+    """the `size_hint` of a chunk's value iterator is exactly its `len()` -- `(len, Some(len))`, std's documented requirement on
+    an `ExactSizeIterator` -- at every point the harness looks (the harness logs a `hint-mismatch` line otherwise)"""
     return ["chunk iterator: %s (line %d)" % (" ".join(l.split()[1:]), i) for i, l in enumerate(tr.lines) if " hint-mismatch " in l]
 
 
@@ -980,7 +980,7 @@ def check_C19(tr):
 
 
 def _with_nth(f):
-    return lambda tr: f(tr) + check_wrapper_nth(tr) + check_hint(tr)
+    return lambda tr: f(tr) + check_wrapper_nth(tr)
 
 
 MONITORS = {
@@ -988,4 +988,6 @@ MONITORS = {
     "C01": _with_nth(check_C01), "C02": _with_nth(check_C02), "C03": (lambda tr: check_C03(tr) + check_hint(tr)), "C04": _with_nth(check_C04), "C05": check_C05,
     "C06": check_C06, "C07": check_C07, "C08": check_C08, "C09": check_C09, "C10": check_C10,
     "C11": check_C11, "C12": check_C12, "C15": check_C15, "C16": check_C16, "C18": check_C18,
+    # std's contract of `ExactSizeIterator` (the chunk value iterators implement it): `size_hint` is exact
+    "C17": check_hint,
 }
